@@ -332,6 +332,37 @@ pub fn prepare_thrift(ctx: &Ctx) -> Result<Prepared, String> {
     Ok(Prepared { gent: target_dir().join("gent"), corpus, excluded, units_ok })
 }
 
+/// Runs the generated-type part of a check whose runtime part lives in vcheck: the sub-process
+/// writes partial evidence, which is merged into `rec`. Returns the sub-process's exit code.
+pub fn merge_gen_part(ctx: &Ctx, rec: &std::cell::RefCell<vcore::evidence::Recorder>, id: &str) -> i32 {
+    if ctx.replay.is_some() {
+        return 0;
+    }
+    let part = vcore::evidence::Recorder::partial_path(id);
+    let _ = std::fs::remove_file(&part);
+    std::env::set_var("VERIF_PARTIAL", "1");
+    let code = run_gent_check(ctx, id);
+    std::env::remove_var("VERIF_PARTIAL");
+    if let Some(v) = std::fs::read_to_string(&part).ok().and_then(|t| serde_json::from_str::<serde_json::Value>(&t).ok()) {
+        rec.borrow_mut().merge_partial(&v);
+    } else if code != 2 {
+        eprintln!("INFRA: generated-type part of {} left no evidence", id);
+        return 2;
+    }
+    code
+}
+
+/// Combines the exit code of the runtime part with that of the generated-type part.
+pub fn combine(own: i32, gen: i32) -> i32 {
+    if own == 1 || gen == 1 {
+        1
+    } else if own == 2 || gen == 2 {
+        2
+    } else {
+        0
+    }
+}
+
 /// Builds the pipeline and runs the value-level check `id` inside the generated-code binary.
 pub fn run_gent_check(ctx: &Ctx, id: &str) -> i32 {
     let p = match prepare_thrift(ctx) {
@@ -344,24 +375,72 @@ pub fn run_gent_check(ctx: &Ctx, id: &str) -> i32 {
     for (k, r) in &p.excluded {
         eprintln!("note: unit {} excluded from value-level checks: {}", k, vcore::evidence::truncate(r, 300));
     }
-    let mut cmd = Command::new(&p.gent);
-    cmd.arg(id).arg("--tier").arg(ctx.tier.name());
-    if let Some(rp) = &ctx.replay_path {
-        cmd.arg("--replay").arg(rp);
-    }
-    cmd.env("VERIF_SEED", (ctx.seed as i64).to_string()).env("VERIF_ROOT", verif_root());
-    cmd.env("VERIF_EXCLUDED_UNITS", p.excluded.len().to_string());
-    match cmd.status() {
-        Ok(s) => match s.code() {
-            Some(c) => c,
-            None => {
-                eprintln!("INFRA: generated-code binary died: {:?}", s);
-                2
-            }
-        },
-        Err(e) => {
-            eprintln!("INFRA: cannot run {}: {}", p.gent.display(), e);
-            2
+    // journaled-worker protocol: a worker that is killed is restarted behind the case that
+    // killed it; deaths inside an open known-finding class are counted, anything else is a violation
+    let journal = work_dir().join(format!("journal-{}.json", id));
+    let mut skip: u64 = 0;
+    let mut carry = serde_json::json!({"evaluations": 0u64, "distinct_nontrivial": 0u64, "known": {}, "classes": {}});
+    for _restart in 0..40 {
+        let _ = std::fs::remove_file(&journal);
+        let mut cmd = Command::new(&p.gent);
+        cmd.arg(id).arg("--tier").arg(ctx.tier.name());
+        if let Some(rp) = &ctx.replay_path {
+            cmd.arg("--replay").arg(rp);
         }
+        cmd.env("VERIF_SEED", (ctx.seed as i64).to_string()).env("VERIF_ROOT", verif_root());
+        cmd.env("VERIF_SKIP", skip.to_string()).env("VERIF_CARRY", carry.to_string());
+        cmd.stderr(std::process::Stdio::piped());
+        let out = match cmd.spawn().and_then(|c| c.wait_with_output()) {
+            Ok(o) => o,
+            Err(e) => {
+                eprintln!("INFRA: cannot run {}: {}", p.gent.display(), e);
+                return 2;
+            }
+        };
+        let stderr = String::from_utf8_lossy(&out.stderr).to_string();
+        for l in stderr.lines().filter(|l| !l.starts_with("proptest: Aborting shrinking")) {
+            eprintln!("{}", l);
+        }
+        if let Some(c) = out.status.code() {
+            return c;
+        }
+        let j: Option<serde_json::Value> = std::fs::read_to_string(&journal).ok().and_then(|t| serde_json::from_str(&t).ok());
+        let Some(j) = j else {
+            eprintln!("INFRA: generated-code binary died without a journaled case: {:?}", out.status);
+            return 2;
+        };
+        let is_async = j["case"]["case"]["sched"].as_str() != Some("Sync");
+        let alloc_failure = stderr.contains("memory allocation of");
+        if is_async && alloc_failure && ctx.findings.is_open("C09", "async-count-prealloc") {
+            // known finding: async generated decoders allocate the wire count up front
+            let n = carry["known"]["async-count-prealloc"].as_u64().unwrap_or(0) + 1;
+            carry["known"]["async-count-prealloc"] = serde_json::json!(n);
+            let c = carry["classes"]["worker restarted behind a known-finding death"].as_u64().unwrap_or(0) + 1;
+            carry["classes"]["worker restarted behind a known-finding death"] = serde_json::json!(c);
+            carry["evaluations"] = serde_json::json!(carry["evaluations"].as_u64().unwrap_or(0) + j["evaluations"].as_u64().unwrap_or(0));
+            carry["distinct_nontrivial"] = serde_json::json!(carry["distinct_nontrivial"].as_u64().unwrap_or(0) + j["distinct_nontrivial"].as_u64().unwrap_or(0));
+            skip = j["index"].as_u64().unwrap_or(skip + 1);
+            continue;
+        }
+        let rec = std::cell::RefCell::new(vcore::evidence::Recorder::new(id, ctx.tier, ctx.seed));
+        {
+            let mut r = rec.borrow_mut();
+            r.rule = "the generated-code test binary was killed; evidence reconstructed from its journal".into();
+            r.evaluations += j["evaluations"].as_u64().unwrap_or(0) + 1;
+            r.extra_nontrivial += j["distinct_nontrivial"].as_u64().unwrap_or(0).max(2);
+            r.case(1, true, || j["case"].clone());
+            r.violation(
+                j["case"]["sub"].as_str().unwrap_or("generated"),
+                format!("key=process-died the process running generated code was killed ({:?}; {}) while executing the journaled case", out.status, stderr.lines().last().unwrap_or("")),
+                j["case"].clone(),
+            );
+        }
+        if std::env::var("VERIF_PARTIAL").is_ok() {
+            // the caller merges partial evidence; make sure it exists
+        }
+        let code = rec.borrow().finish(&ctx.findings);
+        return code;
     }
+    eprintln!("INFRA: generated-code binary was restarted 40 times");
+    2
 }
